@@ -40,45 +40,7 @@ func runC09(c *Ctx) {
 		c.obMustUnder("refused before greeting", f, []string{"reply:5xx"}, aHeloEmpty)
 	}
 
-	R.Rule("R-authallowed-def", "E4", "authAllowed() can be true only because the connection is TLS or AllowInsecureAuth is set", 2)
-	if f := c.A.Func("(*Conn).authAllowed"); f != nil {
-		ff := c.F.Analyze(f)
-		n := 0
-		var check func(v ssa.Value, facts FactSet, pos string, depth int)
-		check = func(v ssa.Value, facts FactSet, pos string, depth int) {
-			if b, ok := constBool(v); ok {
-				if !b {
-					return
-				}
-				n++
-				R.Ob(fmt.Sprintf("(*Conn).authAllowed/true way %d", n), pos, facts["(*Conn).TLSConnectionState(param0)#1 == true"], "authAllowed returns constant true on a path not guarded by the TLS test; facts: "+fmt.Sprint(facts.list()))
-				return
-			}
-			if phi, ok := v.(*ssa.Phi); ok && depth < 3 {
-				for i, e := range phi.Edges {
-					check(e, ff.edgeOut(phi.Block().Preds[i], phi.Block()), pos, depth+1)
-				}
-				return
-			}
-			n++
-			d := describe(v)
-			R.Ob(fmt.Sprintf("(*Conn).authAllowed/true way %d", n), pos, d == "Server.AllowInsecureAuth" || d == "(*Conn).TLSConnectionState(param0)#1", "authAllowed can be true because of "+d)
-		}
-		allInstrs(f, func(in ssa.Instruction) {
-			if r, ok := in.(*ssa.Return); ok && len(r.Results) == 1 {
-				check(r.Results[0], ff.At(in), c.P.InstrPos(in), 0)
-			}
-		})
-	}
-	if f := c.A.Func("(*Conn).TLSConnectionState"); f != nil {
-		ok := false
-		allInstrs(f, func(in ssa.Instruction) {
-			if ta, isT := in.(*ssa.TypeAssert); isT && describe(ta.X) == "Conn.conn" && typeShort(ta.AssertedType) == "*tls.Conn" && ta.CommaOk {
-				ok = true
-			}
-		})
-		R.Ob("(*Conn).TLSConnectionState/ok iff conn is *tls.Conn", c.P.Pos(f.Pos()), ok, "TLS state no longer derived from a *tls.Conn assertion on the live connection")
-	}
+	ruleAuthAllowedDef(c)
 
 	R.Rule("R-auth-once", "E3+E2", "didAuth becomes true only after the mechanism reported completion with a nil error and after the 235 reply; it is cleared only by the TLS upgrade", 3)
 	for _, site := range c.Sites("st:Conn.didAuth=true") {
@@ -187,6 +149,44 @@ func runC09(c *Ctx) {
 		}
 	}
 
+	R.Rule("R-cauth-empty-response", "E4", "inside the exchange loop the client stops only on a nil response; an empty non-nil response is sent (the loop never tests the length of the mechanism's response)", 1)
+	if f := c.A.Func("(*Client).Auth"); f != nil {
+		nilTest := false
+		for _, li := range findLoops(f) {
+			for b := range li.blocks {
+				if len(b.Instrs) == 0 {
+					continue
+				}
+				iff, ok := b.Instrs[len(b.Instrs)-1].(*ssa.If)
+				if !ok {
+					continue
+				}
+				bo, ok := iff.Cond.(*ssa.BinOp)
+				if !ok {
+					continue
+				}
+				fromNext := func(v ssa.Value) bool {
+					for _, l := range leafSources(v) {
+						if l == "invoke:Client.Next#0" {
+							return true
+						}
+					}
+					return false
+				}
+				// len(resp) compared with a constant
+				if call, isCall := bo.X.(*ssa.Call); isCall {
+					if bi, isB := call.Call.Value.(*ssa.Builtin); isB && bi.Name() == "len" && fromNext(call.Call.Args[0]) {
+						R.Ob(c.siteKey(iff, "no length test on the response in the loop"), c.P.InstrPos(iff), false, "the exchange loop tests len(resp): an empty but non-nil response (e.g. a final empty acknowledgement) ends the exchange instead of being sent, and Auth reports success without a 235")
+					}
+				}
+				if isNilConst(bo.Y) && fromNext(bo.X) && (bo.Op.String() == "==" || bo.Op.String() == "!=") {
+					nilTest = true
+				}
+			}
+		}
+		R.Ob("(*Client).Auth/loop ends on a nil response", c.P.Pos(f.Pos()), nilTest, "no nil test of the mechanism's response inside the exchange loop")
+	}
+
 	R.Rule("R-cauth-cancel", "E2", "a mechanism error, an undecodable challenge or an unexpected reply inside the exchange is followed by the '*' cancel command on every path before Auth returns", 2)
 	if f := c.A.Func("(*Client).Auth"); f != nil {
 		for _, site := range s.Find(f, "cb:sasl.Client.Next") {
@@ -218,4 +218,49 @@ func emptyArrayAlloc(v ssa.Value) bool {
 		return false
 	}
 	return strings.HasPrefix(typeShort(a.Type()), "*[0]")
+}
+
+// ruleAuthAllowedDef is shared by C09 and C12 (the capability table treats authAllowed() as an atom).
+func ruleAuthAllowedDef(c *Ctx) {
+	R := c.R
+	R.Rule("R-authallowed-def", "E4", "authAllowed() can be true only because the connection is TLS or AllowInsecureAuth is set", 2)
+	if f := c.A.Func("(*Conn).authAllowed"); f != nil {
+		ff := c.F.Analyze(f)
+		n := 0
+		var check func(v ssa.Value, facts FactSet, pos string, depth int)
+		check = func(v ssa.Value, facts FactSet, pos string, depth int) {
+			if b, ok := constBool(v); ok {
+				if !b {
+					return
+				}
+				n++
+				R.Ob(fmt.Sprintf("(*Conn).authAllowed/true way %d", n), pos, facts["(*Conn).TLSConnectionState(param0)#1 == true"], "authAllowed returns constant true on a path not guarded by the TLS test; facts: "+fmt.Sprint(facts.list()))
+				return
+			}
+			if phi, ok := v.(*ssa.Phi); ok && depth < 3 {
+				for i, e := range phi.Edges {
+					check(e, ff.edgeOut(phi.Block().Preds[i], phi.Block()), pos, depth+1)
+				}
+				return
+			}
+			n++
+			d := describe(v)
+			R.Ob(fmt.Sprintf("(*Conn).authAllowed/true way %d", n), pos, d == "Server.AllowInsecureAuth" || d == "(*Conn).TLSConnectionState(param0)#1", "authAllowed can be true because of "+d)
+		}
+		allInstrs(f, func(in ssa.Instruction) {
+			if r, ok := in.(*ssa.Return); ok && len(r.Results) == 1 {
+				check(r.Results[0], ff.At(in), c.P.InstrPos(in), 0)
+			}
+		})
+	}
+	if f := c.A.Func("(*Conn).TLSConnectionState"); f != nil {
+		ok := false
+		allInstrs(f, func(in ssa.Instruction) {
+			if ta, isT := in.(*ssa.TypeAssert); isT && describe(ta.X) == "Conn.conn" && typeShort(ta.AssertedType) == "*tls.Conn" && ta.CommaOk {
+				ok = true
+			}
+		})
+		R.Ob("(*Conn).TLSConnectionState/ok iff conn is *tls.Conn", c.P.Pos(f.Pos()), ok, "TLS state no longer derived from a *tls.Conn assertion on the live connection")
+	}
+
 }
